@@ -66,12 +66,17 @@ func cgo() string {
 }
 
 func (c *checkCtx) buildVH() {
-	c.vh = filepath.Join(c.work, "vh")
+	c.vh = c.buildVHAs("vh", c.plan.race)
+}
+
+// buildVHAs builds the harness under the given name, optionally with the race detector.
+func (c *checkCtx) buildVHAs(name string, race bool) string {
+	exe := filepath.Join(c.work, name)
 	args := []string{"build", "-tags", "verif"}
-	if c.plan.race {
+	if race {
 		args = append(args, "-race")
 	}
-	args = append(args, "-o", c.vh, "./cmd/vh")
+	args = append(args, "-o", exe, "./cmd/vh")
 	cmd := exec.Command("go", args...)
 	cmd.Dir = filepath.Join(root, "harness")
 	cmd.Env = append(os.Environ(), goEnv...)
@@ -79,6 +84,7 @@ func (c *checkCtx) buildVH() {
 	if err != nil {
 		infra("cannot build the harness against /repo: %v\n%s", err, out)
 	}
+	return exe
 }
 
 // ---------------------------------------------------------------------------------------------
@@ -318,6 +324,8 @@ func (c *checkCtx) mcMustFail(module, cfg string, o tlcOpts) {
 // replay
 
 type replayOpts struct {
+	exe     string // harness binary (default: the one built without -race)
+	every   int    // replay only every k-th case (0/1 = all)
 	chunk   int
 	sortKey string // sort the cases by the JSON of this field first (locality)
 	workers int
@@ -325,8 +333,10 @@ type replayOpts struct {
 	opts    map[string]string
 }
 
-func (c *checkCtx) vhRun(args ...string) {
-	cmd := exec.Command(c.vh, args...)
+func (c *checkCtx) vhRun(args ...string) { c.vhRunExe(c.vh, args...) }
+
+func (c *checkCtx) vhRunExe(exe string, args ...string) {
+	cmd := exec.Command(exe, args...)
 	cmd.Env = os.Environ()
 	out, err := cmd.CombinedOutput()
 	if err != nil {
@@ -341,6 +351,19 @@ func (c *checkCtx) replay(fam, casesFile string, o replayOpts) (cases, results [
 	}
 	if o.timeout == 0 {
 		o.timeout = 20 * time.Second
+	}
+	if o.every > 1 {
+		cs := readNd(casesFile)
+		f, _ := os.Create(casesFile + ".sample")
+		w := bufio.NewWriterSize(f, 1<<20)
+		for i := int(c.seed) % o.every; i < len(cs); i += o.every {
+			b, _ := json.Marshal(cs[i])
+			w.Write(b)
+			w.WriteByte('\n')
+		}
+		w.Flush()
+		f.Close()
+		casesFile = casesFile + ".sample"
 	}
 	if o.sortKey != "" {
 		cs := readNd(casesFile)
@@ -371,7 +394,11 @@ func (c *checkCtx) replay(fam, casesFile string, o replayOpts) (cases, results [
 	if o.chunk > 0 {
 		args = append(args, "--chunk", strconv.Itoa(o.chunk))
 	}
-	c.vhRun(args...)
+	exe := c.vh
+	if o.exe != "" {
+		exe = o.exe
+	}
+	c.vhRunExe(exe, args...)
 	cases = readNd(casesFile)
 	results = readNd(out)
 	if len(cases) != len(results) {
